@@ -20,12 +20,23 @@ enum Stretch {
     ZeroVolume,
     /// the level alternately as a scalar and as a one-price bar on the same instance
     Alternating,
+    /// zeros of both signs (0.0 == -0.0: a flat window at level 0), as scalars or as bars with
+    /// high = 0.0, low = -0.0
+    SignedZeros,
 }
 
 fn stretch_op(kind: Stretch, level: f64, j: usize) -> Op {
     match kind {
         Stretch::Scalar => Op::S(level),
         Stretch::OnePriceBar => Op::B(Bar { o: level, h: level, l: level, c: level, v: 1.0 }),
+        Stretch::SignedZeros => {
+            let z = if j % 2 == 0 { 0.0 } else { -0.0 };
+            if level > 0.0 {
+                Op::S(z)
+            } else {
+                Op::B(Bar { o: z, h: 0.0, l: -0.0, c: z, v: 1.0 })
+            }
+        }
         Stretch::Alternating => {
             if j % 2 == 0 {
                 Op::S(level)
@@ -55,6 +66,11 @@ fn plan(cfg: &Cfg) -> Vec<(Stretch, usize)> {
     if cfg.kind.has_scalar() {
         v.push((Stretch::Scalar, w));
         v.push((Stretch::Alternating, w));
+    }
+    // a flat window at level zero (ROC and PPO divide by the level itself: 0/0 is the formula's own
+    // singularity there, not a flat-window matter)
+    if !matches!(cfg.kind, Kind::Roc | Kind::Ppo) {
+        v.push((Stretch::SignedZeros, w));
     }
     v.push((Stretch::OnePriceBar, w));
     match cfg.kind {
@@ -166,7 +182,10 @@ fn check_cfg(ctx: &Ctx, cfg: &Cfg, dp: usize, stretch_len: usize) -> JobOut {
                 }
                 // cross: the active prefix arrives through the OTHER input path of the same instance
                 // (bars before a scalar stretch, scalars before a one-price-bar stretch)
-                if cross && (pre.is_empty() || !cfg.kind.has_scalar() || !matches!(st, Stretch::Scalar | Stretch::OnePriceBar | Stretch::Alternating)) {
+                if cross && (pre.is_empty() || !cfg.kind.has_scalar() || !matches!(st, Stretch::Scalar | Stretch::OnePriceBar | Stretch::Alternating | Stretch::SignedZeros)) {
+                    continue;
+                }
+                if st == Stretch::SignedZeros && !(level == 1.0 && cfg.kind.has_scalar() || level == -1.0) {
                     continue;
                 }
                 // PPO divides by its slow average: a stream that changes sign drives that average through 0,
@@ -178,7 +197,7 @@ fn check_cfg(ctx: &Ctx, cfg: &Cfg, dp: usize, stretch_len: usize) -> JobOut {
                     out.stats.capped.push(format!("time cap in {}", cfg.descr()));
                     return out;
                 }
-                let pst = if !cross { if st == Stretch::Alternating { Stretch::Scalar } else { st } } else if st == Stretch::Scalar { Stretch::OnePriceBar } else if st == Stretch::Alternating { Stretch::OnePriceBar } else { Stretch::Scalar };
+                let pst = if !cross { if st == Stretch::Alternating { Stretch::Scalar } else if st == Stretch::SignedZeros { if level > 0.0 { Stretch::Scalar } else { Stretch::OnePriceBar } } else { st } } else if st == Stretch::Scalar { Stretch::OnePriceBar } else if st == Stretch::Alternating { Stretch::OnePriceBar } else { Stretch::Scalar };
                 let mut ops: Vec<Op> = pre.iter().enumerate().map(|(i, &a)| if a as usize == pv.len() { Op::Reset } else { prefix_op(cfg, pv[a as usize], pst, i) }).collect();
                 let plen = ops.len();
                 // t and M restart at the last reset()
@@ -253,6 +272,9 @@ fn level_sweep(ctx: &Ctx, cfg: &Cfg) -> JobOut {
     }
     let prefixes: [&[f64]; 2] = [&[], &[2.0, 7.7]];
     for (st, w) in plan(cfg) {
+        if st == Stretch::SignedZeros {
+            continue;
+        }
         if st == Stretch::ZeroVolume {
             continue;
         }
@@ -346,7 +368,7 @@ pub fn run(ctx: &Ctx) -> CheckResult {
     res.extra.insert("configurations".into(), json!(jobs.len()));
     res.rule = "case = (configuration, active prefix, stretch kind, flat level, step of the stretch); the real output at every step whose reference window is degenerate (min(t,w) trailing inputs flat / zero-flow) must be finite, inside the documented range, and equal the documented neutral value where one is defined; non-trivial = non-empty active prefix".into();
     res.bounds = format!(
-        "all 22 indicators, periods 1..8; every active prefix over {{2, 0.3, 1e6, 7.7, 1e9}} up to depth {}, reset() being one of the prefix symbols, prefixes of length <= 1 also followed by a serde round trip / clone, and each prefix also fed through the other input path (bars before a scalar stretch and vice versa) (exponential-memory kinds at periods 1..3: {}), levels {{1, 0.1, 0.7, 3.3, 1e6, -1, -3.3}} (and 1e200, 1e-200, 1e300 for streams flat from the start), stretch kinds scalar / one-price bar / both alternating on one instance / same bar (CCI, MFI) / zero volume (MFI, OBV), every stretch length 1..{} ({} for exponential-memory kinds{}); level sweep for periods 1..3: all two-decimal prices 0.01..20.00 and 2000 log-uniform levels in [1e-3, 1e6]",
+        "all 22 indicators, periods 1..8; every active prefix over {{2, 0.3, 1e6, 7.7, 1e9}} up to depth {}, reset() being one of the prefix symbols, prefixes of length <= 1 also followed by a serde round trip / clone, and each prefix also fed through the other input path (bars before a scalar stretch and vice versa) (exponential-memory kinds at periods 1..3: {}), levels {{1, 0.1, 0.7, 3.3, 1e6, -1, -3.3}} (and 1e200, 1e-200, 1e300 for streams flat from the start), stretch kinds scalar / one-price bar / both alternating on one instance / zeros of both signs / same bar (CCI, MFI) / zero volume (MFI, OBV), every stretch length 1..{} ({} for exponential-memory kinds{}); level sweep for periods 1..3: all two-decimal prices 0.01..20.00 and 2000 log-uniform levels in [1e-3, 1e6]",
         4,
         3,
         if th { 600 } else { 64 },
